@@ -766,7 +766,7 @@ def i_AND(i, fmap):
         op2 = op2.signextend(op1.size)
     x = fmap(op1) & op2
     fmap[zf] = x == 0
-    fmap[sf] = x < 0
+    fmap[sf] = x.bit(-1)
     fmap[cf] = bit0
     fmap[of] = bit0
     fmap[pf] = parity8(x[0:8])
@@ -780,7 +780,7 @@ def i_OR(i, fmap):
     op2 = fmap(i.operands[1])
     x = fmap(op1) | op2
     fmap[zf] = x == 0
-    fmap[sf] = x < 0
+    fmap[sf] = x.bit(-1)
     fmap[cf] = bit0
     fmap[of] = bit0
     fmap[pf] = parity8(x[0:8])
@@ -794,7 +794,7 @@ def i_XOR(i, fmap):
     op2 = fmap(i.operands[1])
     x = fmap(op1) ^ op2
     fmap[zf] = x == 0
-    fmap[sf] = x < 0
+    fmap[sf] = x.bit(-1)
     fmap[cf] = bit0
     fmap[of] = bit0
     fmap[pf] = parity8(x[0:8])
@@ -987,7 +987,7 @@ def i_SHL(i, fmap):
     else:
         fmap[cf] = top(1)
         fmap[of] = top(1)
-    fmap[sf] = x < 0
+    fmap[sf] = x.bit(-1)
     fmap[zf] = x == 0
     fmap[pf] = parity8(x[0:8])
     op1, x = _r32_zx64(op1, x)
@@ -1130,7 +1130,7 @@ def i_SHRD(i, fmap):
         n = op3.value
         r = op1.size - n
         x = (fmap(op1) >> n) | (op2 << r)
-    fmap[sf] = x < 0
+    fmap[sf] = x.bit(-1)
     fmap[zf] = x == 0
     fmap[pf] = parity8(x[0:8])
     op1, x = _r32_zx64(op1, x)
@@ -1149,7 +1149,7 @@ def i_SHLD(i, fmap):
         r = op1.size - n
         x = (fmap(op1) << n) | (op2 >> r)
     fmap[op1] = x
-    fmap[sf] = x < 0
+    fmap[sf] = x.bit(-1)
     fmap[zf] = x == 0
     fmap[pf] = parity8(x[0:8])
     op1, x = _r32_zx64(op1, x)
